@@ -2,13 +2,13 @@ package checks
 
 import (
 	"encoding/json"
-	"time"
 	"fmt"
 	"os"
 	"path/filepath"
 	"sort"
 	"strings"
 	"testing"
+	"time"
 
 	"github.com/awslabs/ar-go-tools/verifharness/core"
 	"github.com/awslabs/ar-go-tools/verifharness/gogen"
@@ -22,9 +22,9 @@ import (
 // Validity: every trace ends at its entry argument and is a connected sequence of dataflow steps.
 
 type c03Checker struct {
-	rec   *core.Recorder
-	links map[string]int
-	unl   map[string]int
+	rec      *core.Recorder
+	links    map[string]int
+	unl      map[string]int
 	ncollect int
 }
 
@@ -176,7 +176,7 @@ func TestC03(t *testing.T) {
 	if env.Thorough() {
 		nv = 20
 	}
-	tp := &twoPass{id: "C03", salt: 3, checks: env.Pick(500, 20000), rec: rec,
+	tp := &twoPass{id: "C03", salt: 3, checks: env.Pick(500, 5000), rec: rec,
 		gen:   func(t *rapid.T) *flowCase { return genFlowCase(t, gogen.FlowProfile(off), nv) },
 		judge: cc.judge, opt: native.Options{InProcess: true}}
 	tp.run(t)
